@@ -255,15 +255,13 @@ fn run_codec(op: &str, t: &[&str]) -> String {
                 .map(|x| {
                     let r = x.repr();
                     // value = significand * 2^exponent ; canonical: odd significand
-                    let mut m: i128 = i128::try_from(r.significand().clone()).unwrap_or(i128::MAX);
+                    let sig = r.significand().clone();
                     let mut e: i64 = r.exponent() as i64;
-                    if m == 0 {
+                    let tz = sig.trailing_zeros().unwrap_or(0);
+                    let m = sig >> tz;
+                    e += tz as i64;
+                    if tz == 0 && m.to_string() == "0" {
                         e = 0;
-                    } else {
-                        while m % 2 == 0 {
-                            m /= 2;
-                            e += 1;
-                        }
                     }
                     format!("{m}:{e}")
                 })
